@@ -323,6 +323,17 @@ def check_C09(tier, seed, t0):
         trace_module="TraceKernel.tla", trace_cfg="TraceKernel.cfg", driver_of=lambda d: "drv_kernels")
 
 
+def check_C11(tier, seed, t0):
+    descs = ["mode=matop;reps=%d;nmax=%d;seed=%d" % (n_of(tier, 3, 24), n_of(tier, 5, 12), seed)]
+    own = ["ProductExact", "RowsCols", "SolveFinite", "SolveAccurate", "ReadsOnlyItsTriangle", "ConfigSpaceComplete", "ShiftInvert64Combinations", "UnknownRow"]
+    return ir_flow("C11", tier, seed, descs, own, [], COMMON_ASSUME[:1] + [
+        "product wrappers: exact (integer matrices and vectors; the specification computes the product; unused triangle poisoned)",
+        "solve wrappers and composite operators: residual of the defining equation measured in long double and judged with the condition number of the factorized matrix; "
+        "poison independence by digest equality of two runs that differ only in the unused triangle",
+        "the instantiated configuration set is checked against MatOp.tla's enumeration (scalar types x storage index types are sampled for the sparse wrappers: double with int/long, float and long double with int)"], t0,
+        trace_module="TraceKernel.tla", trace_cfg="TraceKernel.cfg", driver_of=lambda d: "drv_matop", extra_cov=dict(exhaustive=True))
+
+
 def check_C10(tier, seed, t0):
     parts = 8
     descs = ["mode=exact;stride4=%d;part=%d;parts=%d" % (41 if tier == "quick" else 3, i, parts) for i in range(parts)]
@@ -391,7 +402,7 @@ def check_C14(tier, seed, t0):
         level="fault_enumeration" if False else "model_checking")
 
 
-CHECKS = {"C08": check_C08, "C09": check_C09, "C10": check_C10, "C12": check_C12, "C03": check_C03, "C04": check_C04, "C06": check_C06, "C14": check_C14, "C18": check_C18, "C19": check_C19, "C05": check_C05, "C01": check_C01, "C02": check_C02, "C07": check_C07, "C13": check_C13}
+CHECKS = {"C11": check_C11, "C08": check_C08, "C09": check_C09, "C10": check_C10, "C12": check_C12, "C03": check_C03, "C04": check_C04, "C06": check_C06, "C14": check_C14, "C18": check_C18, "C19": check_C19, "C05": check_C05, "C01": check_C01, "C02": check_C02, "C07": check_C07, "C13": check_C13}
 
 
 def main():
